@@ -1409,6 +1409,104 @@ def s_ctor(variant):
     return h
 
 
+def s_option_or(kind):
+    """Option::unwrap_or / unwrap_or_else / unwrap_or_default / map_or / map_or_else / ok_or / ok_or_else / is_some_and / is_none_or,
+    Result::unwrap_or / unwrap_or_else / ok / err / is_ok_and / is_err_and : decided per variant (fork when the variant is unknown)"""
+    def h(I_, st, path, c, args, t, depth):
+        ty = (t.get("atys") or [""])[0]
+        out = []
+        for (s2, v) in I_.fork_variants(st, args[0], ty):
+            if not (v[0] == "adt" and v[2] in ("Ok", "Err", "Some", "None")):
+                return None
+            present = v[2] in ("Some", "Ok")
+            pay = I_.field(v, 0) if v[2] != "None" else None
+            if kind == "unwrap_or":
+                out.append((s2, pay if present else args[1]))
+            elif kind == "unwrap_or_else":
+                if present:
+                    out.append((s2, pay))
+                else:
+                    out.extend(I_.call_value(s2, args[1], [] if v[2] == "None" else [pay], t, None, depth))
+            elif kind == "map_or":
+                if present:
+                    out.extend(I_.call_value(s2, args[2], [pay], t, None, depth))
+                else:
+                    out.append((s2, args[1]))
+            elif kind == "map_or_else":
+                if present:
+                    out.extend(I_.call_value(s2, args[2], [pay], t, None, depth))
+                else:
+                    out.extend(I_.call_value(s2, args[1], [] if v[2] == "None" else [pay], t, None, depth))
+            elif kind == "ok_or":
+                out.append((s2, ok(pay) if present else err(args[1])))
+            elif kind == "ok_or_else":
+                if present:
+                    out.append((s2, ok(pay)))
+                else:
+                    for (s3, r) in I_.call_value(s2, args[1], [], t, None, depth):
+                        out.append((s3, err(r)))
+            elif kind == "ok":
+                out.append((s2, some(pay) if v[2] == "Ok" else NONE))
+            elif kind == "err":
+                out.append((s2, some(pay) if v[2] == "Err" else NONE))
+            elif kind in ("is_some_and", "is_ok_and"):
+                if present:
+                    out.extend(I_.call_value(s2, args[1], [pay], t, None, depth))
+                else:
+                    out.append((s2, I(0)))
+            elif kind == "is_none_or":
+                if present:
+                    out.extend(I_.call_value(s2, args[1], [pay], t, None, depth))
+                else:
+                    out.append((s2, I(1)))
+            elif kind in ("is_some", "is_ok"):
+                out.append((s2, I(1 if present else 0)))
+            elif kind in ("is_none", "is_err"):
+                out.append((s2, I(0 if present else 1)))
+            else:
+                return None
+        return out
+    return h
+
+
+_ORD_SETS = {"is_lt": ("Less",), "is_le": ("Less", "Equal"), "is_gt": ("Greater",), "is_ge": ("Greater", "Equal"), "is_eq": ("Equal",), "is_ne": ("Less", "Greater")}
+
+
+def s_ordering_is(kind):
+    def h(I_, st, path, c, args, t, depth):
+        out = []
+        for (s2, v) in I_.fork_variants(st, _target(I_, st, args[0]), "std::cmp::Ordering"):
+            if not (v[0] == "adt" and v[2] in ("Less", "Equal", "Greater")):
+                return None
+            out.append((s2, I(1 if v[2] in _ORD_SETS[kind] else 0)))
+        return out
+    return h
+
+
+def s_find(I_, st, path, c, args, t, depth):
+    """Iterator::find over a fully known sequence: the first element for which the predicate holds"""
+    it = _as_iter(I_, st, args[0])
+    if it is None:
+        return None
+    items = iter_drain_static(it)
+    if items is None or any(x[0] == "splice" for x in items) or len(items) > 8:
+        return None
+    out = []
+    work = [(st, 0)]
+    while work:
+        s, i = work.pop()
+        if i == len(items):
+            out.append((s, NONE))
+            continue
+        for (s2, r) in I_.call_value(s, args[1], [items[i]], t, None, depth):
+            s_t, s_f = _truth_fork(s2, r)
+            if s_t is not None:
+                out.append((s_t, some(items[i])))
+            if s_f is not None:
+                work.append((s_f, i + 1))
+    return out
+
+
 SUMMARIES = [(re.compile(rx), h) for rx, h in [
     (r"^(std|alloc)::vec::Vec::<T>::new$|^(std|alloc)::vec::Vec::<T>::with_capacity$", s_vec_new),
     (r"^(std|alloc)::vec::Vec::<T, A>::push$|^(std|alloc)::string::String::push_str$|^(std|alloc)::string::String::push$", s_vec_push),
@@ -1425,6 +1523,14 @@ SUMMARIES = [(re.compile(rx), h) for rx, h in [
     (r"Iterator>::any$|Iterator::any$", s_any_all("any")), (r"Iterator>::all$|Iterator::all$", s_any_all("all")),
     (r"result::Result::<T, E>::map$|option::Option::<T>::map$", s_variant_map("map")),
     (r"result::Result::<T, E>::map_err$", s_variant_map("map_err")),
+    (r"(option::Option::<T>|result::Result::<T, E>)::unwrap_or$", s_option_or("unwrap_or")), (r"(option::Option::<T>|result::Result::<T, E>)::unwrap_or_else$", s_option_or("unwrap_or_else")),
+    (r"(option::Option::<T>|result::Result::<T, E>)::map_or$", s_option_or("map_or")), (r"(option::Option::<T>|result::Result::<T, E>)::map_or_else$", s_option_or("map_or_else")),
+    (r"option::Option::<T>::ok_or$", s_option_or("ok_or")), (r"option::Option::<T>::ok_or_else$", s_option_or("ok_or_else")),
+    (r"result::Result::<T, E>::ok$", s_option_or("ok")), (r"result::Result::<T, E>::err$", s_option_or("err")),
+    (r"option::Option::<T>::is_some_and$", s_option_or("is_some_and")), (r"result::Result::<T, E>::is_ok_and$", s_option_or("is_ok_and")), (r"option::Option::<T>::is_none_or$", s_option_or("is_none_or")),
+    (r"cmp::Ordering::(is_lt)$", s_ordering_is("is_lt")), (r"cmp::Ordering::(is_le)$", s_ordering_is("is_le")), (r"cmp::Ordering::(is_gt)$", s_ordering_is("is_gt")),
+    (r"cmp::Ordering::(is_ge)$", s_ordering_is("is_ge")), (r"cmp::Ordering::(is_eq)$", s_ordering_is("is_eq")), (r"cmp::Ordering::(is_ne)$", s_ordering_is("is_ne")),
+    (r"Iterator>::find$|Iterator::find$", s_find),
     (r"result::Result::<T, E>::and_then$|option::Option::<T>::and_then$", s_variant_map("and_then")),
     (r"option::Option(::<T>)?::Some$|^std::prelude::v\d::Some$", s_ctor("Some")), (r"result::Result(::<T, E>)?::Ok$|^std::prelude::v\d::Ok$", s_ctor("Ok")),
     (r"result::Result(::<T, E>)?::Err$|^std::prelude::v\d::Err$", s_ctor("Err")),
